@@ -565,6 +565,33 @@ theorem fixed_point_history (fs₀ : Fs) (pre post : List HOp) (cls : String) (a
   rw [← hc, hid] at h
   exact h
 
+/-- **same result for both stores, every level, every path spelling**: the same object saved under two
+accepted configurations (e.g. zip with level 9 through a `Path`, dir with level `None` through a `str`) onto
+two targets, after any history, loads back as the same graph — `canon` of the saved one — from both -/
+theorem stores_agree (fs₀ : Fs) (pre : List HOp) (cls : String) (attrs : List (String × Val))
+    (a1 a2 : SaveArgs) (s1 p1 s2 p2 : String)
+    (hwf : wfA (.obj cls attrs) = true)
+    (h1 : resolveSave (fun p => (fsGet (hrun fs₀ pre).1 p).isSome) a1 = .ok (s1, p1))
+    (h2 : resolveSave (fun p => (fsGet (hrun fs₀ (pre ++ [.save (.obj cls attrs) a1])).1 p).isSome) a2 = .ok (s2, p2))
+    (hne : p1 ≠ p2) :
+    let fs := (hrun fs₀ (pre ++ [.save (.obj cls attrs) a1] ++ [.save (.obj cls attrs) a2])).1
+    (hstep fs (.load p1)).2 = .loaded (canon (.obj cls attrs)) ∧
+    (hstep fs (.load p2)).2 = (hstep fs (.load p1)).2 := by
+  have hp2 : p2 = resolvePath a2 := by
+    have := resolveSave_ok_eq _ _ _ h2; cases this; rfl
+  have e1 := roundtrip_history fs₀ pre [.save (.obj cls attrs) a2] cls attrs a1 s1 p1 hwf h1
+    (by
+      intro op hop
+      simp only [List.mem_singleton] at hop
+      subst hop
+      simp only [quietOn, Bool.or_eq_true, bne_iff_ne, ne_eq]
+      left; left
+      rw [← hp2]; exact fun e => hne e.symm)
+  have e2 := roundtrip_history fs₀ (pre ++ [.save (.obj cls attrs) a1]) [] cls attrs a2 s2 p2 hwf h2
+    (by intro op hop; cases hop)
+  simp only [List.append_nil] at e2
+  exact ⟨e1, by rw [e2, e1]⟩
+
 /-- a target nothing was saved to does not load -/
 theorem load_missing_raises (fs : Fs) (p : String) (h : fsGet fs p = none) :
     hstep fs (.load p) = (fs, .raised .fileNotFound) := by
@@ -606,6 +633,10 @@ example : ∀ op ∈ [HOp.save hObj2 { hA with level := some 10, mode := "o" }, 
 example : ∃ fs, (hrun [] [HOp.save hObj hA, .save hObj2 hA]).1 = fs ∧ (hrun [] [HOp.save hObj hA, .save hObj2 hA]).2.length = 2 :=
   ⟨_, rfl, rfl⟩
 example : isNumericScalar (numFeatOf (.npScalar "float64" (.float 0))) = true := by decide
+-- hypotheses of `stores_agree`: zip/level 9 then dir/level None of one object on an empty filesystem
+example : resolveSave (fun p => (fsGet (hrun [] []).1 p).isSome) { hB with level := some 9 } = .ok ("zip", "/d/run2.zip") ∧
+    resolveSave (fun p => (fsGet (hrun [] ([] ++ [HOp.save hObj { hB with level := some 9 }])).1 p).isSome) hA = .ok ("dir", "/d/run1") := by
+  decide
 
 /-! ### the type-dispatch chain of `_serialize_value` (`Model/SerializeDispatch.lean`,
 `Generated/SerializeDispatch.lean` — the latter regenerated from the source on every run) -/
